@@ -32,9 +32,9 @@ META = {
     "level_note": "Duplicate tags are only demanded to yield the list of values in order on default.qubit (the behaviour its docs show for repeated "
                   "snapshots); default.mixed and the tape path are not given duplicate tags (undocumented). Circuits with mid-circuit measurements are "
                   "not generated (their snapshot semantics are per-branch lists; left to C21). Devices without wires are given explicit wires.",
-    "shards": {"quick": 3, "thorough": 12},
-    "budget_s": {"quick": 110, "thorough": 240},
-    "min_evals": {"quick": 600, "thorough": 15000},
+    "shards": {"quick": 3, "thorough": 9},
+    "budget_s": {"quick": 110, "thorough": 180},
+    "min_evals": {"quick": 600, "thorough": 5000},
     "deciding": ["snap.value", "snap.keys", "snap.final"],
     "rule": "case = (circuit spec, snapshot positions/tags/measurements, device, shots, path); distinct = content fingerprint; non-trivial = at "
             "least one snapshot sits strictly inside the circuit (operators before and after it) and its reference value differs from the value at the start",
